@@ -77,8 +77,12 @@ use self::core::{OneShotShared, STATE_SENT, STATE_TAKEN}; // Import shared state
 use std::fmt; // For Sender/Receiver Debug impls
 use std::future::Future;
 use std::pin::Pin;
+#[cfg(not(excsn_fibre_verif))]
 use std::sync::atomic::{AtomicBool, Ordering};
+#[cfg(not(excsn_fibre_verif))]
 use std::sync::Arc;
+#[cfg(excsn_fibre_verif)]
+use crate::internal::sync::{Arc, AtomicBool, Ordering};
 use std::task::{Context, Poll};
 
 /// Creates a new oneshot channel, returning a `Sender` and `Receiver` pair.
